@@ -264,8 +264,10 @@ func (r *vfC17Rig) await(exp vfC17Proj, d time.Duration) (vfC17Proj, bool) {
 		}
 		// nothing has moved for much longer than any pause the pool makes (fillingStopped sleeps
 		// at most 131 ms) and nobody is inside the dialer: the real pool has settled elsewhere
-		if i > 50 && atomic.LoadInt32(&r.inDial) == r.parkedDials() &&
-			time.Since(time.Unix(0, atomic.LoadInt64(&r.lastEv))) > 450*time.Millisecond {
+		// (a fill that is still to end - the model says filling = FALSE, the pool still says TRUE - is
+		// waited for up to the deadline: fillingStopped sleeps before it takes the lock)
+		if i > 50 && !(got.Filling && !exp.Filling) && atomic.LoadInt32(&r.inDial) == r.parkedDials() &&
+			time.Since(time.Unix(0, atomic.LoadInt64(&r.lastEv))) > 700*time.Millisecond {
 			return got, false
 		}
 		if i < 50 {
